@@ -355,6 +355,7 @@ QUICK_TASKS = [
     ("synth_3b_1_h_nu", ("axisangle", "dpd2")),      # massless spin 1/2 spectator
     ("synth_3b_h_1_h00", ("axisangle", "dpd3")),
     ("synth_4b_cascade_h_h", ("axisangle",)),        # 4-body cascade, spin 1/2 on the production node
+    ("tau_nurhopi_hel/t0", ("axisangle",)),          # massive spin-1 final state behind a massless helicity state
 ]
 THOROUGH_CAN = ["lc_pkpi_can", "jpsi_gpipi_can", "etac_ll_can", "jpsi_ppbar_can"]
 
@@ -367,7 +368,7 @@ def tasks_for(seed, n):
     tasks = []
     import reactions
 
-    names = [x for x in reactions.names() if x.endswith("_hel")] + THOROUGH_CAN
+    names = [x for x in reactions.names() if x.endswith("_hel")] + THOROUGH_CAN + ["tau_nurhopi_hel"]
     for label, r in L.corpus_single_topology(names):
         tasks.append((label, L.ALIGNMENTS[1:], seed, nev, tier))
         cls = L.classify(r, "dpd1")
